@@ -1,7 +1,7 @@
 """C14: hand-written driver sections for the parts of the ported API that are reached through methods,
 interfaces or closures (encodings, hashes, sort, containers, Builder/Buffer/Reader/Replacer, byte order)."""
 import base64, struct
-from gen.c14_drivers import Sec, texts, ints_of, runes, f64bits, U, rand_text
+from gen.c14_drivers import Sec, texts, ints_of, runes, f64bits, U, rand_text, BigStr
 
 
 def sec(key, pkg, kinds, stmts, toks, calls, casts=None, imports=(), pre=""):
@@ -42,7 +42,7 @@ def mutate(rng, s):
 def enc_inputs(rng, vol):
     T = [t for t in texts(rng, vol["rand"]) if len(t) <= 300]
     T += [bytes(range(256)), b"\x00", b"\xff", b"\xff\xff", b"\xff\xff\xff", b"\xfb\xff", b"f", b"fo", b"foo", b"foob", b"fooba", b"foobar", bytes(rng.getrandbits(8) for _ in range(1000))]
-    for n in range(0, 12):
+    for n in list(range(0, 12)) + [3071, 3072, 3073]:
         T.append(bytes(rng.getrandbits(8) for _ in range(n)))
     return T
 
@@ -160,6 +160,8 @@ def binary_sections(rng, vol):
 def hash_sections(rng, vol):
     out = []
     T = [t for t in texts(rng, vol["rand"])] + [b"\xff" * 5553, b"\xff" * 5552, b"\xff" * 11105, bytes(range(256)) * 20, b"a" * 70000, b"The quick brown fox jumps over the lazy dog"]
+    for n in (7, 8, 9, 15, 16, 17, 31, 32, 33, 63, 64, 65, 127, 128, 129, 1023, 1024, 1025):          # slicing-by-8 / block thresholds
+        T.append(bytes(rng.getrandbits(8) for _ in range(n)))
     polys = [0xedb88320, 0x82f63b78, 0xeb31d82e, 0, 1, 0xffffffff, 0x04c11db7]
     pairs = []
     for t in T:
@@ -255,7 +257,7 @@ func kvRun(k int, keys []int64, stable bool) string {
 
 def int_lists(rng, vol):
     L = [[], [1], [2, 1], [1, 2], [3, 1, 2], [1, 1, 1], [5, 4, 3, 2, 1], [-(1 << 31), (1 << 31) - 1, 0, -1, 1], [0] * 13]
-    sizes = [2, 3, 5, 8, 11, 12, 13, 20, 33, 50, 51, 100, 257] + ([1000, 3000] if vol["rand"] > 20 else [400])
+    sizes = [2, 3, 5, 8, 11, 12, 13, 20, 33, 49, 50, 51, 100, 257, 1000] + ([3000, 10000] if vol["rand"] > 20 else [])
     for n in sizes:
         L.append([rng.randrange(-1000, 1000) for _ in range(n)])
         L.append([rng.randrange(0, 4) for _ in range(n)])
@@ -753,6 +755,85 @@ def textio_sections(rng, vol):
     return out
 
 
+D_ = lambda e: ("dg(%s)" % e, "d")
+DB_ = lambda e: ("dgb(0, %s)" % e, "d")
+
+
+def unit_of(k):
+    """a byte string of exactly k bytes whose content is not periodic with a period dividing 8192"""
+    if k <= 16:
+        return b"abcdefghijklmnopq"[:k]
+    head = b"<%d>" % k
+    body = (k - len(head)) // 13
+    tail = b"0123456789ABC"[:k - len(head) - body * 13]
+    return BigStr(head, b"abcdefghijklm", body, tail)
+
+
+def needle_of(L):
+    return bytes((i * 7 + 3) % 26 + 97 for i in range(L))
+
+
+def size_sections(rng, vol):
+    """argument classes at the sizes where the algorithms switch strategy: Repeat's 8 KiB chunking, the Index family on
+    long haystacks full of near-misses, builder/buffer growth, thousands of parts, block boundaries of the codecs.
+    Large results are compared by length + checksum + per-KiB block checksums (driver helper dg), never printed."""
+    out = []
+    thorough = vol["rand"] > 20
+    # ---- Repeat
+    rep_calls = []
+    for k in (1, 3, 7, 4097, 8191, 8192, 8193):
+        u = unit_of(k)
+        targets = [8191, 8193, 16385, 20481, 24577, 32769, 65537] + ([131073, 262145] if thorough else [])
+        counts = sorted(set(max(1, (t + k - 1) // k) for t in targets) | {2, 3})
+        for c in counts:
+            if k * c <= (300000 if thorough else 80000):
+                rep_calls.append((u, c))
+    rep_calls += [(b"ab", 4096), (b"ab", 4097), (b"abcde", 1639), (b"abcde", 4097), (U("é日"), 3000), (b"x", 8192), (b"x", 8193), (b"", 100000), (b"abc", 6827)]
+    out.append(sec("strings.Repeat.large", "strings", ["str", "i64"], "r0 := strings.Repeat($0, $1)", [D_("r0")], rep_calls, casts=[None, "int"]))
+    out.append(sec("bytes.Repeat.large", "bytes", ["bytes", "i64"], "r0 := bytes.Repeat($0, $1)", [DB_("r0")], rep_calls, casts=[None, "int"]))
+    # ---- Index family on long haystacks with near-misses
+    hay_calls = []
+    Hs = [9000, 65536] + ([1000, 300000] if thorough else [])
+    for L in (1, 2, 8, 16, 31, 32, 33, 63, 64, 65):
+        nd = needle_of(L)
+        miss = (nd[:-1] + b"#") if L > 1 else b"#"
+        for H in Hs:
+            n = max(1, H // len(miss))
+            hay_calls.append((BigStr(b"", miss, n, nd), nd))                       # only occurrence at the very end
+            hay_calls.append((BigStr(b"", miss, n, b""), nd))                      # absent
+            if L in (2, 16, 33, 64):
+                hay_calls.append((BigStr(nd, miss, n, nd + b"tail"), nd))          # first and near the end
+                hay_calls.append((BigStr(b"", nd, max(1, H // L), b""), nd))       # back to back
+    hay_calls += [(BigStr(b"", b"a", 20000, b"b"), b"a" * 31 + b"b"), (BigStr(b"", b"a", 20000, b""), b"a" * 64 + b"b"), (BigStr(b"", b"ab", 10000, b"ac"), b"abac"),
+                  (BigStr(b"b", b"a", 20000, b""), b"ba"), (BigStr(b"", b"aaaa", 5000, b""), b"aa")]
+    for pkg, kind, dgf, cat in (("strings", "str", D_, "catS"), ("bytes", "bytes", DB_, "catB")):
+        P = pkg
+        out.append(sec(P + ".Index.large", pkg, [kind, kind], "r0 := %s.Index($0, $1)\nr1 := %s.LastIndex($0, $1)\nr2 := %s.Count($0, $1)\nr3 := %s.Contains($0, $1)" % (P, P, P, P),
+                       [I("r0"), I("r1"), I("r2"), B("r3")], hay_calls))
+        out.append(sec(P + ".Replace.large", pkg, [kind, kind, "i64"], "r0 := %s.Replace($0, $1, %s, $2)" % (P, '"<=>"' if kind == "str" else '[]byte("<=>")'),
+                       [dgf("r0")], [(h, nd, n) for (h, nd) in hay_calls[::2] for n in (-1, 2)], casts=[None, None, "int"]))
+        out.append(sec(P + ".ReplaceAll.large", pkg, [kind, kind], "r0 := %s.ReplaceAll($0, $1, %s)" % (P, '""' if kind == "str" else "nil"), [dgf("r0")], hay_calls[1::2]))
+        out.append(sec(P + ".Split.large", pkg, [kind, kind], "r0 := %s.Split($0, $1)\nr1 := %s.SplitAfterN($0, $1, 1000)" % (P, P),
+                       [I("len(r0)"), D_("%s(0, r0)" % cat), I("len(r1)"), D_("%s(0, r1)" % cat)], hay_calls[::3]))
+        # thousands of parts
+        parts = [(BigStr(b"", b"ab,", n, b"z"), b",") for n in (1, 999, 1000, 1001, 5000)] + [(BigStr(b"", b",", 4000, b""), b","), (BigStr(b"", b"x", 3000, b""), b"")]
+        out.append(sec(P + ".Split.many", pkg, [kind, kind], "r0 := %s.Split($0, $1)\nr1 := %s.Join(r0, %s)" % (P, P, '"--"' if kind == "str" else '[]byte("--")'),
+                       [I("len(r0)"), D_("%s(0, r0)" % cat), dgf("r1")], parts))
+        flds = [(BigStr(b" ", b"ab \t", n, b"  "),) for n in (1, 1000, 5000)] + [(BigStr(b"", U("é "), 3000, b""),), (BigStr(b"", b"a", 50000, b""),), (BigStr(b"", b" ", 50000, b""),)]
+        out.append(sec(P + ".Fields.many", pkg, [kind], "r0 := %s.Fields($0)" % P, [I("len(r0)"), D_("%s(0, r0)" % cat)], flds))
+        big1 = [(BigStr(b"  ", b"Hello, World! ", 3000, b"  "),), (BigStr(b"\t", b"MiXeD cAsE 123 ", 3000, b"\n"),), (BigStr(b"x", b"y", 70000, b"z"),)]
+        out.append(sec(P + ".ToUpper.large", pkg, [kind], "r0 := %s.ToUpper($0)\nr1 := %s.TrimSpace($0)\nr2 := %s.ToLower($0)" % (P, P, P), [dgf("r0"), dgf("r1"), dgf("r2")], big1[::2] + big1[1:2]))
+    # ---- growth of Builder / Buffer
+    grow = [(c, t) for c in (1, 7, 63, 64, 65, 511, 512, 4095, 4096, 4097, 10000) for t in ((70000,) if c > 1 else (6000,))]
+    out.append(sec("strings.Builder.grow", "strings", ["i64", "i64"],
+                   "var sb strings.Builder\nchunk := rep(\"0123456789abcdefg\", int($0)/17+1)[:int($0)]\nfor sb.Len() < int($1) {\n\tsb.WriteString(chunk)\n\tsb.WriteByte(byte(sb.Len()))\n}",
+                   [I("sb.Len()"), D_("sb.String()")], grow))
+    out.append(sec("bytes.Buffer.grow", "bytes", ["i64", "i64"],
+                   "var bb bytes.Buffer\nchunk := []byte(rep(\"0123456789abcdefg\", int($0)/17+1)[:int($0)])\nrd := make([]byte, int($0)/3+1)\nnr := 0\nfor bb.Len() < int($1) {\n\tbb.Write(chunk)\n\tbb.WriteByte(byte(bb.Len()))\n\tn, _ := bb.Read(rd)\n\tnr += n\n\tbb.WriteString(\"..\")\n}",
+                   [I("bb.Len()"), I("nr"), DB_("bb.Bytes()")], grow))
+    return out
+
+
 def all_scenarios(rng, vol):
     return (base64_sections(rng, vol) + base32_sections(rng, vol) + hex_sections(rng, vol) + utf8_sections(rng, vol) + binary_sections(rng, vol) +
-            hash_sections(rng, vol) + sort_sections(rng, vol) + container_sections(rng, vol) + textio_sections(rng, vol))
+            hash_sections(rng, vol) + sort_sections(rng, vol) + container_sections(rng, vol) + textio_sections(rng, vol) + size_sections(rng, vol))
